@@ -1,1 +1,128 @@
-/-! Property theorems for C07 (statements + proofs by reference to `Proof/`). Not built yet. -/
+import GraafVerif.Proof.Bfm
+/-!
+# C07 — Bellman-Ford-Moore: exact distances, or None on a reachable negative circuit
+
+Only statements and their proofs-by-reference live here.  `Bfm.distances` is the model of
+`BellmanFordMoore::new(&digraph, s).distances()` (Model/Bfm.lean), tied to the code by the
+correspondence run.
+-/
+namespace GraafVerif.C07
+open GraafVerif GraafVerif.Bfm
+
+/-- **P0** The literally four times unrolled relaxation loop (with its `if i < arcs_len`
+guards) is the plain left fold of `relax` over the arc vector — for EVERY arc count, hence for
+every residue modulo 4, and for every fuel that is large enough (fuel adequacy). -/
+theorem unrolled4_eq_foldl (arcs : List Arc) (fuel : Nat) (st : Dist × Bool)
+    (h : arcs.length ≤ 4 * fuel) : roundLoop arcs fuel 0 st = arcs.foldl relax st := by
+  rw [roundLoop_eq_foldl arcs fuel 0 st (by omega), List.drop_zero]
+
+theorem round_eq_foldl (arcs : List Arc) (d : Dist) : round arcs d = arcs.foldl relax (d, false) :=
+  Bfm.round_eq_foldl arcs d
+
+/-- Non-vacuity: 5 arcs (residue 1), fuel 2 — the second trip takes only the first block. -/
+example : roundLoop [(0,1,2),(1,2,-1),(0,2,5),(2,3,1),(3,1,-1)] 2 0 ([some 0, none, none, none], false)
+    = ([some 0, some 1, some 1, some 2], true) := by decide
+
+/-- **Exactness of `Some(d)`**: needs only the invariant "finite entries are walk weights" and
+the final scan — not the number of rounds, not the early exit. -/
+theorem bfm_some_exact (g : WGraph) (hwf : g.WF) (s : Nat) (d : Dist)
+    (h : distances g s = .ret (some d)) : Exact g s d :=
+  some_exact hwf h
+
+/-- In an exact vector the sentinel stands exactly at the unreachable vertices (the "exactly
+when" of the property; `Exact` has the direction sentinel ⇒ unreachable, the converse is here). -/
+theorem exact_inf_iff (g : WGraph) (s : Nat) (d : Dist) (h : Exact g s d) (v : Nat) (hv : v < g.n) :
+    d[v]? = some none ↔ ¬ WReachFrom g [s] v :=
+  Bfm.exact_inf_iff h hv
+
+/-- The `assert!(s < order)` of `new`: a panic exactly for an out-of-range source. -/
+theorem bfm_panic_iff (g : WGraph) (s : Nat) : distances g s = .panic ↔ ¬ s < g.n :=
+  Bfm.panic_iff g s
+
+/-- **A negative circuit reachable from `s` ⇒ `None`.** -/
+theorem bfm_negcycle_none (g : WGraph) (hwf : g.WF) (s : Nat) (hs : s < g.n)
+    (h : NegReachable g s) : distances g s = .ret none := by
+  obtain ⟨x, hr, hn⟩ := h
+  exact negcycle_none hwf hs hr hn
+
+/-- Non-vacuity: a 3-vertex digraph, source 0, vertex 2 unreachable; and the doc example with a
+negative circuit. -/
+example : distances ⟨3, fun u => if u = 0 then [(1, -2)] else if u = 2 then [(0, 1)] else []⟩ 0
+    = .ret (some [some 0, some (-2), none]) := by decide
+example : distances ⟨3, fun u => if u = 0 then [(1, -2)] else if u = 1 then [(2, -1)] else [(0, -1)]⟩ 0
+    = .ret none := by decide
+example : NegReachable ⟨3, fun u => if u = 0 then [(1, -2)] else if u = 1 then [(2, -1)] else [(0, -1)]⟩ 0 := by
+  have w1 := WWalk.snoc (x := 1) (w := -2) (WWalk.nil (g := ⟨3, fun u => if u = 0 then [(1, -2)] else if u = 1 then [(2, -1)] else [(0, -1)]⟩) 0)
+    (by simp [WGraph.A])
+  have w2 := WWalk.snoc (x := 2) (w := -1) w1 (by simp [WGraph.A])
+  have w3 := WWalk.snoc (x := 0) (w := -1) w2 (by simp [WGraph.A])
+  exact ⟨0, ⟨0, List.mem_singleton_self 0, 0, 0, WWalk.nil 0⟩, 3, _, by omega, w3, by omega⟩
+
+/-- **P1: no negative circuit reachable from `s` ⇒ `Some`** (in particular when the digraph has
+no negative circuit at all).  Proof: after `k` in-place passes every walk with `≤ k` arcs bounds
+the entry of its end; a pass without update is a fixpoint (sound early exit); without negative
+circuits every walk dominates one without repeated vertices, i.e. with `≤ order - 1` arcs. -/
+theorem bfm_no_negcycle_some (g : WGraph) (hwf : g.WF) (s : Nat) (hs : s < g.n)
+    (h : ¬ NegReachable g s) : ∃ d, distances g s = .ret (some d) :=
+  no_negcycle_some hwf hs (fun x hr hn => h ⟨x, hr, hn⟩)
+
+/-- `None` exactly when a negative circuit is reachable from the source. -/
+theorem bfm_none_iff (g : WGraph) (hwf : g.WF) (s : Nat) (hs : s < g.n) :
+    distances g s = .ret none ↔ NegReachable g s := by
+  refine ⟨fun hnone => ?_, bfm_negcycle_none g hwf s hs⟩
+  apply Classical.byContradiction
+  intro hn
+  obtain ⟨d, hd⟩ := bfm_no_negcycle_some g hwf s hs hn
+  rw [hd] at hnone
+  cases hnone
+
+/-- Two exact vectors are equal: `Exact` determines the output. -/
+theorem exact_unique (g : WGraph) (s : Nat) (d d' : Dist) (h : Exact g s d) (h' : Exact g s d') :
+    d = d' :=
+  Bfm.exact_unique h h'
+
+/-- **P1: agreement with Dijkstra on non-negative weights**, at spec level: on non-negative
+weights the result is `Some`, and it equals ANY vector that is exact in the sense of `Exact`
+— which is what C03 states of `DijkstraDist::distances` (with `usize::MAX` as the sentinel).
+The agreement of the two REAL functions is checked by the correspondence run. -/
+theorem bfm_nonneg_agrees (g : WGraph) (hwf : g.WF) (s : Nat) (hs : s < g.n) (hnn : g.NonNeg)
+    (dj : Dist) (hdj : Exact g s dj) : distances g s = .ret (some dj) := by
+  obtain ⟨d, hd⟩ := no_negcycle_some hwf hs (nonneg_noNegReach hnn s)
+  rw [hd, exact_unique g s d dj (bfm_some_exact g hwf s d hd) hdj]
+
+/-- **Full statement of C07** for the model: for every well-formed weighted digraph and every
+in-range source (path sums fitting is built into the model: weights are unbounded integers and
+the sentinel is a separate value). -/
+def Statement : Prop :=
+  ∀ (g : WGraph) (s : Nat), g.WF → s < g.n →
+    -- `None` whenever a negative circuit is reachable from `s`
+    (NegReachable g s → distances g s = .ret none) ∧
+    -- `Some` whenever the digraph has no negative circuit
+    ((∀ x, ¬ NegCycleAt g x) → ∃ d, distances g s = .ret (some d)) ∧
+    -- `Some(d)`: `d[v]` is the minimum walk weight, the sentinel exactly at unreachable vertices
+    (∀ d, distances g s = .ret (some d) →
+      Exact g s d ∧ ∀ v, v < g.n → (d[v]? = some none ↔ ¬ WReachFrom g [s] v)) ∧
+    -- on non-negative weights it agrees with every exact algorithm (Dijkstra, by C03)
+    (g.NonNeg → ∀ dj, Exact g s dj → distances g s = .ret (some dj))
+
+theorem statement : Statement := by
+  intro g s hwf hs
+  refine ⟨bfm_negcycle_none g hwf s hs, ?_, ?_, ?_⟩
+  · intro hno
+    exact bfm_no_negcycle_some g hwf s hs (fun ⟨x, _, hn⟩ => hno x hn)
+  · intro d hd
+    have he := bfm_some_exact g hwf s d hd
+    exact ⟨he, exact_inf_iff g s d he⟩
+  · exact bfm_nonneg_agrees g hwf s hs
+
+/-- Non-vacuity of the hypotheses of `bfm_no_negcycle_some` / `bfm_nonneg_agrees`: a digraph
+with a negative arc but no negative circuit, all rounds needed; a non-negative one. -/
+example : distances ⟨4, fun u => if u = 0 then [(3, 5)] else if u = 2 then [(1, -2)] else if u = 3 then [(2, -1)] else []⟩ 0
+    = .ret (some [some 0, some 2, some 4, some 5]) := by decide
+example : WGraph.NonNeg ⟨2, fun u => if u = 0 then [(1, 3)] else []⟩ := by
+  intro u v w h
+  simp only [WGraph.A] at h
+  split at h <;> simp at h
+  omega
+
+end GraafVerif.C07
